@@ -50,6 +50,9 @@ def configs(ctx):
     out.append(("sym", 3, "plus", 1, "sh", 6, None, None, False, "wf"))
     out.append(("sym", 3, "plus", 0, "wf", 6, None, 1, False, "sh"))
     out.append(("sym", 3, "minus", 0, "sh", 6, None, None, False, "00"))
+    # a path read back at a restart ('re'; only a path loaded at the very start, 'ld', is exempt from the length draw)
+    out.append(("sym", 3, "plus", 1, "sh", 6, None, None, False, "re"))
+    out.append(("sym", 3, "plus", 0, "sh", 5, None, None, False, "re"))
     # the origin of the axis is arbitrary: lambda_0 = 0.0, cap = 0.0, an inner interface = 0.0, everything negative
     out.append(("sym@-0.5", 3, "minus", 0, "sh", 5, None, None, False, False))
     out.append(("sym@-0.5", 3, "plus", 0, "sh", 5, None, None, False, False))
